@@ -81,6 +81,13 @@ def run(tier):
             k = json.dumps(x["ops"], sort_keys=True)
             if k not in best or x["dur"] < best[k]["dur"]:
                 best[k] = x
+        # crash points INSIDE VDeleteIndex / VCompress / VImportCommit: admissible = what the state before the call
+        # or the state after it may recover to
+        for k, x in best.items():
+            if x["ops"][-1].get("op") in ("VDeleteIndex", "VCompress", "VImportCommit") and x["ops"][-1].get("res") == "ok":
+                pre = best.get(json.dumps(x["ops"][:-1], sort_keys=True))
+                if pre:
+                    x["mid"] = pre["between"] + x["between"] + [pre["early"], pre["snap_renamed"], pre["snap_done"]]
         recs = list(best.values())
         # prefer states with something at stake: a non-empty log or a snapshot-worthy state
         recs.sort(key=lambda x: json.dumps(x["ops"], sort_keys=True))
